@@ -183,7 +183,12 @@ def intervals_flag(cap=60, block=()):
 def replay(cex):
     import xarray as xr
     from pandora.filter import AbstractFilter
-    x = cex['extra']; inp = cex['inputs']; R, C, fs = x['R'], x['C'], x['fs']
+    x = cex['extra']; inp = cex['inputs']
+    if x.get('filter') == 'bilateral_blocks':
+        return replay_bilateral_blocks(cex)
+    if x.get('filter') == 'bilateral':
+        return replay_bilateral(cex)
+    R, C, fs = x['R'], x['C'], x['fs']
     rad = fs // 2
     if x['filter'] == 'median':
         rng = np.random.RandomState(x['seed'])
@@ -256,7 +261,80 @@ def replay(cex):
     return {'violates': bool(bad), 'detail': '; '.join(bad[:3])}
 
 
-def bilateral(R=3, C=3, sigma_space=0.7, sigma_color=2.0, cap=120, block=()):
+def _uf_atoms(t, name):
+    out = []; seen = set()
+
+    def walk(x):
+        if x.get_id() in seen:
+            return
+        seen.add(x.get_id())
+        if z3.is_app(x) and x.decl().name() == name:
+            out.append(x)
+        for ch in x.children():
+            walk(ch)
+    walk(t)
+    return out
+
+
+def _valid(EX, claim, ms=20000):
+    """lemma a == b between two real terms: by normalisation (sum of monomials) first, then by the solver over the reals"""
+    if z3.is_eq(claim):
+        a_, b_ = claim.children()
+        dif = z3.simplify(a_ - b_, som=True)
+        if z3.is_rational_value(dif):
+            return dif.as_fraction() == 0
+    ints = []; seen = set()
+
+    def walk(x):
+        if x.get_id() in seen:
+            return
+        seen.add(x.get_id())
+        if z3.is_app(x) and x.decl().kind() == z3.Z3_OP_TO_REAL:
+            ints.append(x); return
+        for ch in x.children():
+            walk(ch)
+    walk(claim)
+    c2 = z3.substitute(claim, *[(t, z3.Real('L_abs_%d' % i)) for i, t in enumerate(ints)]) if ints else claim
+    s = z3.SolverFor('QF_NRA'); s.set('timeout', ms)
+    s.add(z3.Not(c2))
+    try:
+        return str(s.check()) == 'unsat'
+    except z3.Z3Exception:
+        return False
+
+
+def _valid_abstract(EX, claim, ms):
+    """validity of a real-arithmetic claim in which the uninterpreted exp atoms are replaced by fresh positive reals and the integer-
+    valued samples by fresh reals (a superset of the original models: valid there => valid here); pure QF_NRA -> nlsat"""
+    atoms = _uf_atoms(claim, 'exp_uf')
+    sub = [(a_, z3.Real('E_abs_%d' % i)) for i, a_ in enumerate(atoms)]
+    c2 = z3.substitute(claim, *sub) if sub else claim
+    ints = []; seen = set()
+
+    def walk(x):
+        if x.get_id() in seen:
+            return
+        seen.add(x.get_id())
+        if z3.is_app(x) and x.decl().kind() == z3.Z3_OP_TO_REAL:
+            ints.append(x); return
+        for ch in x.children():
+            walk(ch)
+    walk(c2)
+    sub2 = [(t, z3.Real('D_abs_%d' % i)) for i, t in enumerate(ints)]
+    c3 = z3.substitute(c2, *sub2) if sub2 else c2
+    if _uf_atoms(c3, 'exp_uf'):
+        return False
+    s_ = z3.SolverFor('QF_NRA'); s_.set('timeout', int(ms))
+    for _, v in sub:
+        s_.add(v > 0)
+    s_.add(z3.Not(c3))
+    try:
+        return str(s_.check()) == 'unsat'
+    except z3.Z3Exception:
+        return False
+
+
+def bilateral(R=3, C=3, sigma_space=0.7, sigma_color=2.0, cap=120, block=(), value=False, conc_mask=None, seed=0):
     """bilateral filter in the exact/real domain: exp is an uninterpreted positive function, weights and the weighted mean are
     rational arithmetic ("reals-for-floats"); decides mask / invalid / edge untouched and min <= result <= max of the valid window"""
     import xarray as xr
@@ -272,10 +350,20 @@ def bilateral(R=3, C=3, sigma_space=0.7, sigma_color=2.0, cap=120, block=()):
     def h():
         d, m, shp, sym = _mk_map(S, EX, R, C, None, 0)
         col.shapes = {'d': ((R, C), 'x4'), 'dm': ((R, C), 'u2')}
+        if conc_mask is not None:
+            # value jobs: the validity mask is concrete (pattern given or pseudo-random), the disparities stay symbolic
+            mb = np.array(conc_mask, np.uint16).reshape(R, C) if conc_mask != 'random' else np.where(np.random.RandomState(seed).rand(R, C) < 0.25, np.uint16(64), np.uint16(0)).astype(np.uint16)
+            for (r_, c_), e_ in np.ndenumerate(m._a):
+                EX.assume(e_.t == int(mb[r_, c_]))
         d0 = d.copy(); m0 = m.copy()
         ds = xr.Dataset({"disparity_map": (["row", "col"], d), "validity_mask": (["row", "col"], m)}, coords={"row": np.arange(R), "col": np.arange(C)})
         f = AbstractFilter(cfg={"filter_method": "bilateral", "sigma_space": sigma_space, "sigma_color": sigma_color}, image_shape=(R, C))
         win = min(R, C, int(3 * sigma_space + 1)); off = int(win / 2)
+        from fractions import Fraction
+        SC = z3.RealVal(str(Fraction(float(sigma_color))))
+        # spatial Gaussian from the documentation (concrete): exp(-(dist/sigma_space)^2/2) / (sigma_space sqrt(2 pi))
+        GS = np.array([[np.exp(-((np.sqrt((i - win // 2) ** 2 + (j - win // 2) ** 2) / sigma_space) ** 2) * 0.5) / (sigma_space * np.sqrt(2 * np.pi))
+                        for j in range(win)] for i in range(win)])
         ex = {'filter': 'bilateral', 'R': R, 'C': C, 'sigma_space': sigma_space, 'sigma_color': sigma_color}
         try:
             f.filter_disparity(ds)
@@ -284,7 +372,10 @@ def bilateral(R=3, C=3, sigma_space=0.7, sigma_color=2.0, cap=120, block=()):
         except Exception as e:      # noqa
             col.path_exception(e, label='p%d' % len(EX.trace), extra=ex); return
         do = ds["disparity_map"].data; mo = ds["validity_mask"].data
-        valid = lambda r, c: (S.lift(m0._a[r, c], 'u2') & INVALID) == 0
+        if conc_mask is not None:
+            valid = lambda r, c: z3.BoolVal(not (int(mb[r, c]) & INVALID))       # concrete pattern (pinned above)
+        else:
+            valid = lambda r, c: (S.lift(m0._a[r, c], 'u2') & INVALID) == 0
         props = []
         for r in range(R):
             for c in range(C):
@@ -294,15 +385,141 @@ def bilateral(R=3, C=3, sigma_space=0.7, sigma_color=2.0, cap=120, block=()):
                 lo_r, lo_c = r - off, c - off
                 if lo_r < 0 or lo_c < 0 or lo_r + win > R or lo_c + win > C:
                     props.append(("edge-band-untouched[%d,%d]" % (r, c), same)); continue
-                # the weighted-mean value itself (min <= result <= max) is nonlinear real arithmetic that z3 does not decide
-                # within the caps: outside the claim (stated in DESIGN.md / MANIFEST)
                 props.append(("invalid-pixel-untouched-valid-pixel-finite[%d,%d]" % (r, c), z3.If(valid(r, c), o.tag == 0, same)))
+                if not value:
+                    continue
+                # value: result * sum(w_i) == sum(w_i d_i) over the valid window pixels, w_i = spatial Gaussian(i) * exp(-((d_i - d_c)/sigma_color)^2 / 2)
+                # (the normalisation constants of the Gaussians cancel); exp is the engine's uninterpreted function: the atoms the code
+                # built are matched to the documented arguments by a solver lemma (argument equality), then congruence does the rest
+                if conc_mask is not None:
+                    oval = z3.simplify(z3.substitute(o.val, *[(e_.t, z3.BitVecVal(int(mb[p_]), 16)) for p_, e_ in np.ndenumerate(m0._a) if isinstance(e_, S.Sym)]))
+                else:
+                    oval = o.val
+                atoms = _uf_atoms(oval, 'exp_uf')
+                A = z3.RealVal(0); B = z3.RealVal(0)
+                dc = S.xlift(d0._a[r, c]).val
+                for dr in range(-off, win - off):
+                    for dcc in range(-off, win - off):
+                        di = S.xlift(d0._a[r + dr, c + dcc]).val
+                        x_ = (di - dc) / SC
+                        arg = -(x_ * x_) * z3.RealVal('1/2')
+                        E = None
+                        for a_ in atoms:
+                            if _valid(EX, a_.arg(0) == arg, 5000):
+                                E = a_; break
+                        if E is None:
+                            E = S._EXP['f'](z3.simplify(arg)); EX.assume(E > 0)
+                        g = z3.RealVal(str(Fraction(float(GS[dr + off, dcc + off]))))
+                        vi = valid(r + dr, c + dcc)
+                        if z3.is_false(vi):
+                            continue
+                        A = A + z3.If(vi, g * E * di, 0); B = B + z3.If(vi, g * E, 0)
+                claim = z3.Implies(valid(r, c), oval * B == A)
+                props.append(("valid-pixel-is-the-bilateral-weighted-mean-of-its-valid-window[%d,%d]" % (r, c),
+                              z3.BoolVal(True) if _valid_abstract(EX, claim, cap * 500) else claim))
         col.check_path(props, label='p%d' % len(EX.trace), extra=ex, group=False, witnesses=[("reached", z3.BoolVal(True))])
         info['fn'] = instr.fn_hash(BF.BilateralFilter.filter_disparity, BF.BilateralFilter.filter_bilateral, BF.BilateralFilter.bilateral_kernel)
     res, stats = explore(h, max_paths=8)
     return col.result(stats, functions=info.get('fn', {}),
                       bounds={'filter': 'bilateral', 'map': [R, C], 'sigma_space': sigma_space, 'sigma_color': sigma_color},
                       stubs=['np.exp = uninterpreted function with exp(x) > 0'], assumptions=['C10(bilateral): reals-for-floats (no float rounding of the weighted mean)'])
+
+
+def bilateral_blocks(axis=1, N=53, lo=47, hi=53, sigma_space=0.7, sigma_color=2.0, seed=0, cap=120, block=()):
+    """independence from the internal 50-pixel processing blocks: the filter runs on a map that straddles a block boundary (symbolic
+    stripe across it, concrete elsewhere) and on a crop of the same map that fits in one block; interior pixels must agree"""
+    import xarray as xr
+    from vf import symnp as S, instr
+    from vf.explore import EX, explore
+    from vf.hutil import Collector
+    from pandora.filter import AbstractFilter
+    import pandora.filter.bilateral as BF
+    col = Collector(cap_s=cap, block=list(block))
+    info = {}
+    S.MODE['exact'] = True; S.REALS['div'] = True
+    R, C = (3, N) if axis == 1 else (N, 3)
+
+    def h():
+        d, m, shp, sym = _mk_map(S, EX, R, C, (axis, lo, hi), seed)
+        col.shapes = {'d': (shp[0], 'x4'), 'dm': (shp[1], 'u2')}
+        # masks of the stripe: concrete too (pseudo-random), only the disparities of the stripe are symbolic
+        rng = np.random.RandomState(seed + 1)
+        for e_ in m._a.flat:
+            if isinstance(e_, S.Sym):
+                EX.assume(e_.t == int(rng.choice([0, 0, 0, 64])))
+        win = min(R, C, int(3 * sigma_space + 1)); off = int(win / 2)
+        a0 = max(0, lo - 3 - off); a1 = min(N, hi + 3 + off)
+        ex = {'filter': 'bilateral_blocks', 'axis': axis, 'N': N, 'lo': lo, 'hi': hi, 'sigma_space': sigma_space, 'sigma_color': sigma_color, 'seed': seed, 'crop': [a0, a1]}
+
+        def run(dd, mm, shape):
+            ds = xr.Dataset({"disparity_map": (["row", "col"], dd), "validity_mask": (["row", "col"], mm)}, coords={"row": np.arange(shape[0]), "col": np.arange(shape[1])})
+            AbstractFilter(cfg={"filter_method": "bilateral", "sigma_space": sigma_space, "sigma_color": sigma_color}, image_shape=shape).filter_disparity(ds)
+            return ds["disparity_map"].data
+        try:
+            ow = run(d.copy(), m.copy(), (R, C))
+            if axis == 1:
+                oc = run(S.SymArray(d._a[:, a0:a1].copy(), 'x4'), S.SymArray(m._a[:, a0:a1].copy(), 'u2'), (R, a1 - a0))
+            else:
+                oc = run(S.SymArray(d._a[a0:a1, :].copy(), 'x4'), S.SymArray(m._a[a0:a1, :].copy(), 'u2'), (a1 - a0, C))
+        except S.Unsupported:
+            raise
+        except Exception as e:      # noqa
+            col.path_exception(e, label='p%d' % len(EX.trace), extra=ex); return
+        props = []
+        for k in range(a0 + off, a1 - off):
+            for j in range(3):
+                pw = (j, k) if axis == 1 else (k, j); pc = (j, k - a0) if axis == 1 else (k - a0, j)
+                x_, y_ = ow._a[pw], oc._a[pc]
+                if isinstance(x_, S.Sym) or isinstance(y_, S.Sym):
+                    props.append(("same-value-as-in-a-single-block-crop[%d,%d]" % pw, S.term_eq(x_, y_, 'x4')))
+                else:
+                    same = bool(x_ == y_ or (x_ != x_ and y_ != y_))
+                    props.append(("same-value-as-in-a-single-block-crop[%d,%d]" % pw, z3.BoolVal(same)))
+        col.check_path(props, label='p%d' % len(EX.trace), extra=ex, witnesses=[("reached", z3.BoolVal(True))])
+        info['fn'] = instr.fn_hash(BF.BilateralFilter.filter_bilateral, BF.BilateralFilter.bilateral_kernel)
+    res, stats = explore(h, max_paths=8)
+    return col.result(stats, functions=info.get('fn', {}), bounds={'filter': 'bilateral', 'map': [R, C], 'symbolic stripe': [lo, hi], 'axis': axis},
+                      stubs=['np.exp = uninterpreted function with exp(x) > 0'])
+
+
+def replay_bilateral_blocks(cex):
+    import xarray as xr
+    from pandora.filter import AbstractFilter
+    x = cex['extra']; inp = cex['inputs']
+    axis, N, lo, hi, seed = x['axis'], x['N'], x['lo'], x['hi'], x['seed']
+    R, C = (3, N) if axis == 1 else (N, 3)
+    rng = np.random.RandomState(seed)
+    base = rng.randint(-8, 9, size=(R, C)).astype(np.float32) / 4
+    mb = np.where(rng.rand(R, C) < 0.15, np.uint16(1), np.uint16(0)).astype(np.uint16)
+    sub = (R, hi - lo) if axis == 1 else (hi - lo, C)
+    dv = np.array(inp['d'], np.float32).reshape(sub)
+    rng2 = np.random.RandomState(seed + 1)
+    mv = np.array([int(rng2.choice([0, 0, 0, 64])) for _ in range(sub[0] * sub[1])], np.uint16).reshape(sub)
+    if inp.get('dm') is not None:
+        mv = np.array(inp['dm'], np.uint16).reshape(sub)
+    if axis == 1:
+        base[:, lo:hi] = dv; mb[:, lo:hi] = mv
+    else:
+        base[lo:hi, :] = dv; mb[lo:hi, :] = mv
+    a0, a1 = x['crop']
+    win = min(R, C, int(3 * x['sigma_space'] + 1)); off = int(win / 2)
+
+    def run(dd, mm):
+        ds = xr.Dataset({"disparity_map": (["row", "col"], dd.copy()), "validity_mask": (["row", "col"], mm.copy())}, coords={"row": np.arange(dd.shape[0]), "col": np.arange(dd.shape[1])})
+        AbstractFilter(cfg={"filter_method": "bilateral", "sigma_space": x['sigma_space'], "sigma_color": x['sigma_color']}, image_shape=dd.shape).filter_disparity(ds)
+        return ds["disparity_map"].data
+    try:
+        ow = run(base, mb)
+        oc = run(base[:, a0:a1], mb[:, a0:a1]) if axis == 1 else run(base[a0:a1, :], mb[a0:a1, :])
+    except Exception as e:      # noqa
+        return {'violates': True, 'detail': 'bilateral filter raised %r' % (e,)}
+    for k in range(a0 + off, a1 - off):
+        for j in range(3):
+            pw = (j, k) if axis == 1 else (k, j); pc = (j, k - a0) if axis == 1 else (k - a0, j)
+            a_, b_ = float(ow[pw]), float(oc[pc])
+            if not (a_ == b_ or (a_ != a_ and b_ != b_)) and abs(a_ - b_) > 1e-5:
+                return {'violates': True, 'detail': 'pixel %s of the %dx%d map gets %r, the same pixel in the single-block crop [%d:%d] gets %r' % (pw, R, C, a_, a0, a1, b_)}
+    return {'violates': False, 'detail': 'whole map and crop agree'}
 
 
 def replay_bilateral(cex):
@@ -327,4 +544,16 @@ def replay_bilateral(cex):
                     bad.append('pixel (%d,%d) (%s) changed %r -> %r' % (r, c, 'edge' if edge else 'invalid', float(d[r, c]), float(do[r, c])))
             elif not np.isfinite(do[r, c]):
                 bad.append('valid pixel (%d,%d) became %r' % (r, c, float(do[r, c])))
+            else:
+                # documented weighted mean over the valid window pixels
+                num = 0.0; den = 0.0
+                for dr in range(-off, win - off):
+                    for dc in range(-off, win - off):
+                        if m[r + dr, c + dc] & INVALID:
+                            continue
+                        di = float(d[r + dr, c + dc])
+                        w = np.exp(-((np.sqrt(dr * dr + dc * dc) / x['sigma_space']) ** 2) * 0.5) * np.exp(-(((di - float(d[r, c])) / x['sigma_color']) ** 2) * 0.5)
+                        num += w * di; den += w
+                if abs(float(do[r, c]) - num / den) > 1e-4 * max(1.0, abs(num / den)):
+                    bad.append('valid pixel (%d,%d) becomes %r, the bilateral weighted mean of its valid window is %r (map %s, mask %s)' % (r, c, float(do[r, c]), num / den, d.tolist(), m.tolist()))
     return {'violates': bool(bad), 'detail': '; '.join(bad[:3])}
